@@ -79,6 +79,10 @@ func jsonNumbers(v interface{}) interface{} {
 			}
 		} else if u, err := strconv.ParseUint(string(x), 10, 64); err == nil {
 			return u
+		} else if !strings.ContainsAny(string(x), ".eE") {
+			// a whole number beyond 64 bits: as float64 it could round back into range
+			// (-2^63-1 becomes -2^63), the digits themselves convert exactly or not at all
+			return string(x)
 		}
 		f, _ := x.Float64()
 		return f
